@@ -18,6 +18,8 @@ type rcur struct {
 	countChecked bool
 	// checkedVars: count variables bounded against the remaining input
 	checkedVars map[string]bool
+	// pendingRec: a nested record was decoded at the cursor and not yet stepped over
+	pendingRec string
 	// perIter is set inside a loop covered by a bulk check: bytes proven per iteration
 }
 
@@ -134,8 +136,24 @@ func (l *Lifter) lenCheck(s ast.Stmt) (rel string, e Lin, ok bool) {
 
 func (l *Lifter) brBlock(stmts []ast.Stmt, cur *rcur, counts map[string]*countVar, top bool) []Item {
 	var items []Item
+	defer func() {
+		if cur.pendingRec != "" {
+			l.fail("cursor", cur.pendingRec, token.NoPos, "the nested record %s is decoded from buf[at:] but the cursor is never moved past it: what follows is read from the same offset", cur.pendingRec)
+			cur.pendingRec = ""
+		}
+	}()
 	for i := 0; i < len(stmts); i++ {
 		s := stmts[i]
+		if cur.pendingRec != "" {
+			if _, isAcc := l.accStmt(s, "at"); !isAcc {
+				if _, isTmp := s.(*ast.BlockStmt); !isTmp {
+					if _, isEmpty := s.(*ast.EmptyStmt); !isEmpty {
+						l.fail("cursor", cur.pendingRec, s.Pos(), "the nested record %s is decoded from buf[at:] but the cursor is not moved past it before the next statement", cur.pendingRec)
+						cur.pendingRec = ""
+					}
+				}
+			}
+		}
 		if as, ok := s.(*ast.AssignStmt); ok && as.Tok == token.DEFINE && len(as.Lhs) == 1 && l.isIdent(as.Lhs[0], "at") && top {
 			if n, ok := intLit(as.Rhs[0]); ok && n == 0 {
 				continue
@@ -167,6 +185,7 @@ func (l *Lifter) brBlock(stmts []ast.Stmt, cur *rcur, counts map[string]*countVa
 			continue
 		}
 		if d, ok := l.accStmt(s, "at"); ok {
+			cur.pendingRec = ""
 			cur.countChecked = false
 			if cur.avail != nil && cur.avail.T["wirelen(at)"] != 0 && d.T["wirelen(at)"] == 0 {
 				// the bound was phrased in terms of the count at the old cursor
@@ -194,6 +213,7 @@ func (l *Lifter) brBlock(stmts []ast.Stmt, cur *rcur, counts map[string]*countVa
 				leaf = strings.TrimSuffix(strings.TrimPrefix(k, "size("), ")")
 			}
 			l.fail("sizeadv", leaf, s.Pos(), "cursor is advanced by %s — the Size() of the value just decoded, not a byte count taken from the input", d)
+			cur.pendingRec = ""
 			cur.at = cur.at.Add(d)
 			continue
 		}
@@ -522,6 +542,7 @@ func (l *Lifter) brAssign(x *ast.AssignStmt, rest []ast.Stmt, cur *rcur, counts 
 				base := fn[strings.LastIndex(fn, ".")+1:]
 				lower := strings.ToLower(base)
 				if strings.HasPrefix(lower, "make") && strings.HasSuffix(base, "FromBytes") {
+					cur.pendingRec = dst
 					return []Item{{Kind: KRec, Operand: dst, Type: base[4 : len(base)-len("FromBytes")], Pos: pos}}, n, true
 				}
 			}
@@ -564,6 +585,7 @@ func (l *Lifter) brAssign(x *ast.AssignStmt, rest []ast.Stmt, cur *rcur, counts 
 					if l.Safe {
 						l.fail("unchecked", dst, pos, "the checked decoder calls the unchecked constructor %s", base)
 					}
+					cur.pendingRec = dst
 					return []Item{{Kind: KRec, Operand: dst, Type: base[8 : len(base)-len("FromBytes")], Pos: pos}}, 0, true
 				}
 			}
